@@ -36,3 +36,12 @@ Example C13_messages_example :
   messages [Upd [x01]; Upd []; Upd [x02; x03]; Sig; Sig; Upd [x04]; Sig]
   = [[x01; x02; x03]; []; [x04]].
 Proof. reflexivity. Qed.
+
+(* ---- tie to the source: the integer literals of the functions this property's model stands for
+   (private constants, bounds, unit factors; the files are SiteMap.files_C13) are today the ones the
+   model was written against. Gen/Sites.v num_literals is regenerated from /repo on every run; a
+   changed, added or removed number in a modelled function breaks this obligation ---- *)
+Require RV.Gen.Sites RV.Model.SiteMap.
+Theorem C13_literals_reviewed : RV.Model.SiteMap.literals_ok RV.Model.SiteMap.files_C13.
+Proof. repeat constructor. Qed.
+Print Assumptions C13_literals_reviewed.
